@@ -247,6 +247,25 @@ type lexStateScheme struct {
 	sig   *types.Signature       // signature of a state function
 	byVal map[string]*types.Func // enum scheme: constant value -> step function
 	enum  types.Type             // the state type (nil: function-valued states)
+	fns   map[*types.Func]bool   // the step functions, when they are given by a dispatch switch (methods of the lexer, say)
+}
+
+// isState: fn is one of the lexer's state (step) functions.
+func (s *lexStateScheme) isState(fn *types.Func) bool {
+	if s == nil || fn == nil {
+		return false
+	}
+	if s.fns != nil {
+		return s.fns[fn]
+	}
+	sig, ok := fn.Type().(*types.Signature)
+	return ok && sig.Recv() == nil && s.sig != nil && types.Identical(sig, s.sig)
+}
+
+// stateName: the name a state function is known by: its own, without the lexer as a qualifier when it is a method
+// (lexer.lexStart is the state lexStart).
+func stateName(fn *types.Func) string {
+	return strings.TrimPrefix(funcName(fn), "lexer.")
 }
 
 func (c *Ctx) lexStates() *lexStateScheme {
@@ -332,6 +351,95 @@ func (c *Ctx) lexStates() *lexStateScheme {
 			return out
 		}
 	}
+	// a dispatch function: switch state { case stStart: return l.lexStart() … } over a named integer type of the
+	// module, every arm returning the call of a step function that is handed nothing but the lexer
+	for _, it := range c.sortedDecls() {
+		fn, ok := it.obj.(*types.Func)
+		if !ok || it.fd.Body == nil || fn.Pkg() == nil || fn.Pkg().Path() != bclPath {
+			continue
+		}
+		sig := fn.Type().(*types.Signature)
+		if sig.Params().Len() < 1 || sig.Results().Len() != 1 {
+			continue
+		}
+		rt, ok := sig.Results().At(0).Type().(*types.Named)
+		if !ok || rt.Obj().Pkg() == nil || rt.Obj().Pkg().Path() != bclPath {
+			continue
+		}
+		if b, ok := rt.Underlying().(*types.Basic); !ok || b.Info()&types.IsInteger == 0 {
+			continue
+		}
+		var stateParam types.Object
+		np := 0
+		if it.fd.Type.Params != nil {
+			for _, f := range it.fd.Type.Params.List {
+				for _, nm := range f.Names {
+					if types.Identical(c.typeOf(f.Type), rt) {
+						stateParam = c.objOf(nm)
+					}
+					np++
+				}
+			}
+		}
+		if stateParam == nil {
+			continue
+		}
+		var sw *ast.SwitchStmt
+		for _, st := range it.fd.Body.List {
+			if x, ok := st.(*ast.SwitchStmt); ok && x.Tag != nil && c.isObj(x.Tag, stateParam) {
+				sw = x
+			}
+		}
+		if sw == nil {
+			continue
+		}
+		s := &lexStateScheme{byVal: map[string]*types.Func{}, enum: rt, fns: map[*types.Func]bool{}}
+		okAll := true
+		for _, arm := range c.switchArms(sw) {
+			if arm.Default {
+				continue
+			}
+			if len(arm.Body) != 1 {
+				okAll = false
+				break
+			}
+			rs, isR := arm.Body[0].(*ast.ReturnStmt)
+			if !isR || len(rs.Results) != 1 {
+				okAll = false
+				break
+			}
+			call, isC := stripParens(rs.Results[0]).(*ast.CallExpr)
+			if !isC {
+				okAll = false
+				break
+			}
+			step, _ := c.callee(call).(*types.Func)
+			if step == nil || step.Pkg() == nil || step.Pkg().Path() != bclPath {
+				okAll = false
+				break
+			}
+			ssig := step.Type().(*types.Signature)
+			onLexer := (ssig.Recv() != nil && ssig.Params().Len() == 0 && isNamed(derefType(ssig.Recv().Type()), bclPath, "lexer")) ||
+				(ssig.Recv() == nil && ssig.Params().Len() == 1 && isNamed(derefType(ssig.Params().At(0).Type()), bclPath, "lexer"))
+			if !onLexer || ssig.Results().Len() != 1 || !types.Identical(ssig.Results().At(0).Type(), rt) {
+				okAll = false
+				break
+			}
+			for _, v := range arm.Vals {
+				if v == nil {
+					okAll = false
+					continue
+				}
+				s.byVal[v.ExactString()] = step
+				s.fns[step] = true
+			}
+		}
+		if okAll && len(s.byVal) >= 3 {
+			out = s
+			c.AliasNotes = append(c.AliasNotes, fmt.Sprintf("lexer states are values of %s; %s dispatches them to their step functions", rt.Obj().Name(), funcName(fn)))
+			return out
+		}
+	}
 	return nil
 }
 
@@ -340,12 +448,12 @@ func (c *Ctx) stateOfValue(v Value) string {
 	s := c.lexStates()
 	switch {
 	case v.K == vFunc && v.FnObj != nil:
-		return funcName(v.FnObj)
+		return stateName(v.FnObj)
 	case v.K == vTag && v.Tag == "nil":
 		return "nil"
 	case s != nil && s.enum != nil && v.K == vConst && v.C.Kind() == constant.Int:
 		if fn := s.byVal[v.C.ExactString()]; fn != nil {
-			return funcName(fn)
+			return stateName(fn)
 		}
 		return "nil"
 	}
@@ -385,8 +493,8 @@ func (c *Ctx) stateFnOf(e ast.Expr, sf map[string]*ast.FuncDecl) string {
 		return ""
 	}
 	if k := c.constOf(e); k != nil && k.Kind() == constant.Int {
-		if fn := s.byVal[k.ExactString()]; fn != nil && sf[funcName(fn)] != nil {
-			return funcName(fn)
+		if fn := s.byVal[k.ExactString()]; fn != nil && sf[stateName(fn)] != nil {
+			return stateName(fn)
 		}
 	}
 	return ""
